@@ -421,7 +421,13 @@ def replay(ctx, path):
                 if v == "viol":
                     ok = False
     if case.get("syscall"):
-        print("(found by the strace sample: %s(%s); re-run `./check %s` to repeat the sample)" % (case["syscall"], case.get("path"), ctx.prop))
+        # found by the strace sample: run this one line under strace again and judge every path it hands to the file system
+        before = len(ctx.violations)
+        _strace_sample(ctx, {0: payload}, 1)
+        print("strace: %d file system calls judged, %d outside the root" % (ctx.coverage.get("strace_file_syscalls_judged", 0),
+                                                                          ctx.coverage.get("strace_outside_accesses", 0) or 0))
+        if len(ctx.violations) > before:
+            return 1
     print("agree :", ok)
     if not ok:
         print(f"VIOLATION property={ctx.prop} replay={os.path.relpath(path, checklib.VERIF)}")
@@ -448,12 +454,22 @@ SPEC = dict(
           "{existing, MISSING, a file, DANGLING symlink, symlink to a directory (modelled as its target), '', '.', none}. (e) J lines "
           "= import statements in programs parsed under source NAMES {plain, with directories, starting with '..', absolute, equal "
           "to files outside the root, ''} x import paths (plain, './', '../' prefixed, leading to module files that import again). "
-          "Compared per path, exactly: the strings that reached the open (verifhook point c17.open directly before ReadFile; B-"
-          "independent spelling) and what came back: rej (an error and no open), E, E+ (error together with content), I<n> / O<n> (content "
-          "of file n inside / OUTSIDE the root; any O is a violation whatever the model says). Regenerated three-valued source facts "
-          "(locator roots; calls reachable from Resolve; receiver and argument of Resolve in importRuntime.Eval) are Lean obligations "
-          "of their own; one that is not established amplifies (d), (e) and the extended alphabet. Non-trivial = a P line, or another "
-          "line on which at least one path opens an existing file."),
+          "C lines = ONE locator used by two goroutines (an outside and an inside path, 2x10^4 / 2x10^5 rounds). "
+          "Compared per path, ONE-SIDED (the property says what may be opened and returned, not that something must be): a violation "
+          "is content of a file OUTSIDE the root (O<n>, whatever the model says), content together with an error (E+), content of "
+          "another file than the path names, content without an observed open that the model does not predict, and any string "
+          "reaching the open (verifhook point c17.open directly before ReadFile) that the Spec `inside` forbids (the driver judges the "
+          "real code's string with insideB, proved equal to `inside`; batched lines print digests, a differing path is run alone "
+          "first). A stricter rejection, a cache hit after the test, an error although the file exists, a differently spelled open "
+          "that is inside = notes in the evidence. A tree WITHOUT the c17.open point is a violation (the open is the observable). "
+          "Dynamic backstop: a sample of R/I/J lines (40 quick, 600 thorough) runs under `strace -f -e trace=%file`; every path handed "
+          "to a file system call while a line runs is judged against `inside` (Getwd's stat of '.'/$PWD, /proc /sys /dev /etc /usr /lib "
+          "ignored). Regenerated three-valued source facts (Option Bool in Lean; only REFUTED breaks; unknown is noted and enlarges the "
+          "T/U/V/J/extended-alphabet cases, which re-run the same tree and alphabets and so have no trigger of their own for what was "
+          "unknown): locator roots; no other file access (calls reachable from Resolve with helpers followed at their call site: none "
+          "before the test / in its rejecting branch / handed anything but the tested LOCAL variable; none at all reachable from "
+          "importRuntime.Eval; cli/tool's own entry / log / config reads listed); receiver and argument of Resolve in Eval. "
+          "Non-trivial = a P line, or another line on which at least one path opens an existing file."),
     exhaustive="all element sequences up to the stated length for every listed root spelling; all pairs for the primitives",
     trusted_base=[
         "the kernel's path walk agrees with the lexical walk on cleaned paths in a tree without symbolic links (the harness's tree has none)",
@@ -462,11 +478,19 @@ SPEC = dict(
         "file-system library functions, calls qualified through the files' import tables (no go/types: the source importer does not "
         "resolve modules offline); they follow local definitions, writes to struct fields and same-package calls; the polarity of a "
         "guard is not analysed; anything else is reported as unknown, never as a negative",
-        "NOT CHECKED: FileImportLocator.Resolve is stateless (one locator is reused within a line and package state would show up "
-        "only through the order of the cases of a shard)",
+        "strace (when installed) for the sample of lines run under it; its -xx string output and the marker stats that attribute "
+        "system calls to lines",
+        "statelessness of Resolve is checked only as far as the cases go: one locator per line, two goroutines on one locator in the "
+        "C lines, package state shared within a shard, plus the source fact that the tested value is a local variable",
     ],
     assumptions=["no symbolic links below or above the root (the property is lexical)",
-                 "Unix path semantics (separator '/', no volume names)"],
+                 "Unix path semantics (separator '/', no volume names)",
+                 "the tree under test keeps the instrumentation point c17.open directly before the read in Resolve (checked: its absence "
+                 "is reported as a violation)",
+                 "file accesses of Resolve / importRuntime.Eval other than the hooked read are excluded by the source fact (go/ast, "
+                 "unknown = not an alarm) and by the strace sample, not by the model; code gated by environment variables or other "
+                 "triggers the cases do not set is covered by the source fact only",
+                 "cli/tool reads its own entry file, log file and <dir>/.ecal.json by design (not imports)"],
     decode=decode,
     post=post,
     extract=extract,
@@ -474,20 +498,23 @@ SPEC = dict(
 )
 
 META = dict(
-    technique=("Lean 4 theorems over an element-list model of filepath.Clean/Join/Rel, of FileImportLocator.Resolve and of the import "
-               "statement (instantiated with source facts regenerated on every run) + differential correspondence with Go's filepath "
-               "and with Resolve / import / the command line tool in a real directory tree, observing the open itself"),
-    level_text=("Proof about the model: for all byte strings root and p, if the MODEL of Resolve opens q then q is cleaned, has the "
-                "cleaned root's elements as a prefix followed only by ordinary names, and the node it denotes from any working "
-                "directory is the root's node extended downwards; otherwise nothing is opened; nested import statements open only "
-                "such q whatever the source names are (given the regenerated facts about rt_general.go). Model tied to the code by "
-                "an exhaustive-for-short / random-for-long differential run that compares the string reaching ReadFile and the "
-                "returned content / error with the model's prediction, per path."),
-    level_note=("Trusted: Lean kernel + propext/Classical.choice/Quot.sound; the correspondence harness and the verifhook point "
-                "c17.open (placed directly before ReadFile; it reports the variable, the extracted fact says the call's argument is "
-                "that variable); the kernel's path walk = the lexical walk on cleaned paths without symbolic links; ReadFile opens "
-                "its argument; the go/ast fact extractors. Not checked: statelessness of Resolve. Lexical property (symbolic links "
-                "out of scope); Unix separators."),
+    technique=("Lean 4 theorems over an element-list model AND a byte-level model (Go's index loops, proved equal) of filepath.Clean/"
+               "Join/Rel, of FileImportLocator.Resolve and of the import statement + one-sided differential correspondence with Go's "
+               "filepath and with Resolve / import / the command line tool in a real directory tree, observing the open itself (hook) "
+               "and, on a sample, every file system call (strace); regenerated three-valued source facts"),
+    level_text=("Proof about the model: for all byte strings root and p, if the MODEL of Resolve (byte-level or element-level) opens q "
+                "then q is cleaned, has the cleaned root's elements as a prefix followed only by ordinary names, and the node it denotes "
+                "from any working directory is the root's node extended downwards; otherwise nothing is opened; nested import statements "
+                "open only such q whatever the source names are, PROVIDED the regenerated fact establishes that importRuntime.Eval calls "
+                "the configured locator. Tie: every string the real code hands to the open is judged against the proved Spec and every "
+                "returned content against the file the path names, exhaustively for short and randomly for long paths; the model's own "
+                "prediction is compared too, differences the property allows are noted, not failed."),
+    level_note=("Trusted: Lean kernel + propext/Classical.choice/Quot.sound; the correspondence harness, the verifhook point c17.open "
+                "(mandatory; it reports the variable, the source fact says the read's argument is that local variable), strace for the "
+                "sampled lines; the kernel's path walk = the lexical walk on cleaned paths without symbolic links; ReadFile opens its "
+                "argument; the go/ast fact extractors (no go/types; 'unknown' is not an alarm). 'No file access besides the hooked read' "
+                "rests on the source fact + the strace sample, not on a proof. Lexical property (symbolic links out of scope); Unix "
+                "separators; sequential use plus two-goroutine lines."),
 )
 
 
